@@ -16,7 +16,7 @@ import (
 )
 
 // Item programs for the ID placeholder: a '|'-separated list of actions
-//   S<x> set placeholder to x    R read it    G GetIdOrPlaceholder("")    E GetIdOrPlaceholder("explicit") (must not touch the placeholder)
+//   S<x> set placeholder to x (x may be empty)    R read it    G GetIdOrPlaceholder("")    E GetIdOrPlaceholder("explicit") (must not touch the placeholder)
 //   F fail (typed error)    P panic
 // and two whole-item programs refused by the router before any handler runs: U (operation without a route), X (critical extension)
 // The handler answers with the observations it made ("R=<v>;G=<v>").
@@ -176,7 +176,7 @@ func phCheck(resp *kmip.ResponseMessage, items []string, stop bool) string {
 }
 
 func phItemPrograms(maxActions int) []string {
-	acts := []string{"Sa", "Sb", "R", "G", "E", "F"}
+	acts := []string{"Sa", "Sb", "S", "R", "G", "E", "F"} // "S" stores the empty identifier
 	progs := []string{""}
 	cur := []string{""}
 	for n := 0; n < maxActions; n++ {
